@@ -40,9 +40,9 @@ theorem core_after_bad (L : Nat) (hL : 0 < L) (sizes : List Nat) (disk : List (O
     (st : St α) (m : Nat) (hm : m < sizes.length) (reason : ErrKind)
     (hbad : fileError sizes disk m = some reason) (hS : 0 < sizeOf sizes m)
     (hc : Core L sizes disk m st) (b : Nat)
-    (hb1 : b * L < pos sizes (m + 1)) (hb2 : pos sizes (m + 1) ≤ b * L + L)
+    (hb1 : b * L < pos sizes (m + 1)) (_hb2 : pos sizes (m + 1) ≤ b * L + L)
     (hqb : st.out.length ≤ b) (hPm : pos sizes m < st.out.length * L + L)
-    (m' sk : Nat) (by_ : List Nat) (hm1 : m < m') (hm2 : m' ≤ sizes.length)
+    (m' sk : Nat) (by_ : List Nat) (hm1 : m < m') (_hm2 : m' ≤ sizes.length)
     (hbex : bycatchExcs sizes disk by_ =
       (List.range' (m + 1) (m' - m - 1)).filterMap
         fun k => (fileError sizes disk k).map fun e => (k, e))
